@@ -177,6 +177,14 @@ static void closeSocket(TcpAsyncCtx *tcpCtx, unsigned int lineNr) {
 		tcpCtx->socketReady = false;
 		/* Clear input buffer. */
 		tcpCtx->inLen = 0;
+
+		/* A partially written request has to be written again from its start on the next connection. */
+		if (KSI_AsyncHandleList_length(tcpCtx->reqQueue) > 0) {
+			KSI_AsyncHandle *req = NULL;
+			if (KSI_AsyncHandleList_elementAt(tcpCtx->reqQueue, 0, &req) == KSI_OK && req != NULL) {
+				req->sentCount = 0;
+			}
+		}
 	}
 }
 
